@@ -110,7 +110,21 @@ def polarity_rule(program, res, rule="C18-S2", windows=False, backends=("pandas"
     for (m, flagname, want_when_reversed) in targets:
         res.analysed(m)
         found = False
-        for comp in [c for c in ast.walk(m.node) if isinstance(c, ast.ListComp)]:
+        # the flags may be built by a helper method of the same class (self.<helper>(…)): look one level down
+        scan_nodes = [m.node]
+        if m.cls is not None:
+            frontier = [m.node]
+            for _depth in range(3):
+                nxt = []
+                for fn_ in frontier:
+                    for c in ast.walk(fn_):
+                        if isinstance(c, ast.Call) and isinstance(c.func, ast.Attribute) and isinstance(c.func.value, ast.Name) and c.func.value.id == "self":
+                            h = m.cls.find_method(c.func.attr)
+                            if h is not None and h.node not in scan_nodes and c.func.attr.startswith("_") and not c.func.attr.endswith("_step"):
+                                scan_nodes.append(h.node)
+                                nxt.append(h.node)
+                frontier = nxt
+        for comp in [c for sn in scan_nodes for c in ast.walk(sn) if isinstance(c, ast.ListComp)]:
             gen = comp.generators[0]
             if not isinstance(gen.target, ast.Name):
                 continue
